@@ -559,7 +559,14 @@ func (res *CheckResult) checkSource(source parser.Source) {
 				variableLiterals = append(variableLiterals, *allotment)
 				res.checkExpression(allotment, TypePortion)
 			case *parser.RatioLiteral:
-				sum.Add(sum, allotment.ToRatio())
+				if allotment.Denominator == nil || allotment.Denominator.Sign() == 0 {
+					res.Diagnostics = append(res.Diagnostics, Diagnostic{
+						Range: allotment.Range,
+						Kind:  &DivByZero{},
+					})
+				} else {
+					sum.Add(sum, allotment.ToRatio())
+				}
 			case *parser.RemainingAllotment:
 				if isLast {
 					remainingAllotment = allotment
@@ -612,7 +619,14 @@ func (res *CheckResult) checkDestination(destination parser.Destination) {
 				variableLiterals = append(variableLiterals, *allotment)
 				res.checkExpression(allotment, TypePortion)
 			case *parser.RatioLiteral:
-				sum.Add(sum, allotment.ToRatio())
+				if allotment.Denominator == nil || allotment.Denominator.Sign() == 0 {
+					res.Diagnostics = append(res.Diagnostics, Diagnostic{
+						Range: allotment.Range,
+						Kind:  &DivByZero{},
+					})
+				} else {
+					sum.Add(sum, allotment.ToRatio())
+				}
 			case *parser.RemainingAllotment:
 				if isLast {
 					remainingAllotment = allotment
